@@ -10,7 +10,10 @@
 (assert (forall ((t Str)) (! (=> (< (segEnd t) (slen t)) (or (= (at t (segEnd t)) 46) (= (at t (segEnd t)) 35))) :pattern ((segEnd t)))))
 (declare-fun isIdx (Str) Bool)
 (declare-fun parseIdx (Str) Int)
-(assert (forall ((i Int)) (! (=> (>= i 0) (and (isIdx (itoa i)) (= (parseIdx (itoa i)) i))) :pattern ((itoa i)))))
+(assert (forall ((i Int)) (! (=> (inInt i) (and (isIdx (itoa i)) (= (parseIdx (itoa i)) i))) :pattern ((itoa i)))))
+; a token that is recognisably a float (exponent or '.') or a literal is not an integer spelling
+(assert (forall ((s Str)) (! (=> (floatMarked s) (not (isIdx s))) :pattern ((floatMarked s)))))
+(assert (forall ((b Bool)) (! (and (not (isIdx (fmtBool b))) (not (pfOK (fmtBool b)))) :pattern ((fmtBool b)))))
 (assert (forall ((s Str)) (! (=> (isIdx s) (inInt (parseIdx s))) :pattern ((parseIdx s)))))
 (assert (not (isIdx str_empty)))
 (declare-fun tfKindO (Heap Int Str) Int)
@@ -103,3 +106,25 @@
 ; leaf facts about strconv.ParseInt(s, 0, 64): an accepted spelling is non-empty and contains neither '.' nor '#'
 (assert (forall ((s Str)) (! (=> (isIdx s) (> (slen s) 0)) :pattern ((isIdx s)))))
 (assert (forall ((s Str) (k Int)) (! (=> (and (isIdx s) (<= 0 k) (< k (slen s))) (and (not (= (at s k) 46)) (not (= (at s k) 35)))) :pattern ((isIdx s) (at s k)))))
+
+; ---- C11: well-formed tree-form paths for writes (non-empty keys free of sigils, non-negative indices)
+(declare-fun tfWFO (Str) Bool)
+(declare-fun tfWFL (Str) Bool)
+(assert (forall ((tf Str)) (! (= (tfWFO tf)
+  (let ((t (sub tf 1 (slen tf))))
+  (let ((e (segEnd t)))
+  (let ((rest (sub t e (slen t))))
+  (and (>= (slen tf) 2) (= (at tf 0) 46) (> e 0)
+       (or (= e (slen t))
+           (and (< e (slen t)) (= (at t e) 46) (tfWFO rest))
+           (and (< e (slen t)) (= (at t e) 35) (tfWFL rest))))))))
+  :pattern ((tfWFO tf)))))
+(assert (forall ((tf Str)) (! (= (tfWFL tf)
+  (let ((t (sub tf 1 (slen tf))))
+  (let ((e (segEnd t)))
+  (let ((seg (sub t 0 e)) (rest (sub t e (slen t))))
+  (and (>= (slen tf) 2) (= (at tf 0) 35) (isIdx seg) (>= (parseIdx seg) 0)
+       (or (= e (slen t))
+           (and (< e (slen t)) (= (at t e) 46) (tfWFO rest))
+           (and (< e (slen t)) (= (at t e) 35) (tfWFL rest))))))))
+  :pattern ((tfWFL tf)))))
